@@ -164,6 +164,7 @@ type PageInfo struct {
 	Children []uint64 // branch: child page ids
 	ElemFlag []uint32 // leaf: element flags
 	BucketRt []uint64 // leaf: for bucket elements the root page id (0 = inline), else 0
+	Lo, Hi   []byte   // key interval the ancestors' separators assign to this page (nil = unbounded)
 }
 
 func (r *Result) errf(format string, a ...any) {
@@ -486,7 +487,7 @@ func (d *dec) treePage(id uint64, stack []uint64, lo, hi []byte, b *model.Bucket
 	if overflow > 0 {
 		d.r.OverflowN += int(overflow)
 	}
-	pi := &PageInfo{ID: id, Flags: flags, Count: count, Overflow: overflow, Parent: parent, IsRoot: isRoot}
+	pi := &PageInfo{ID: id, Flags: flags, Count: count, Overflow: overflow, Parent: parent, IsRoot: isRoot, Lo: lo, Hi: hi}
 	d.r.Pages[id] = pi
 	if kind == "leaf" {
 		d.r.LeafN++
